@@ -6,7 +6,15 @@ post-dominator tree and the resulting CDG (+ `get_control_dependencies`, `is_con
 are exported.  The Lean driver (1) validates the tree against post-dominance pair by pair with
 *checked certificates* (`decidePdom`, soundness proved), (2) checks `TreeOK` and `LabelConsistent`,
 (3) recomputes the CDG and the two queries; everything is diffed.
-Oracle (independent of Lean): brute-force post-dominance in Python → Ferrante's set; CFG shape.
+Oracle (independent of Lean): brute-force post-dominance in Python → Ferrante's set; CFG shape;
+`get_control_dependencies` = every (branch, outcome) reachable backwards over non-branch CDG edges of the
+*expected* (Ferrante) CDG; `is_control_dependent_on_root` = a root edge reachable the same way.
+
+Case kinds: `gen` (progen programs), `stdlib`, `skel` (control-flow skeletons around opaque one-line
+statements: single-block `while True` loops, generators, try/with/match inside branches and loops, …),
+`synth` (random block graphs handed to the real `_insert_dummy_nodes` / `filter_dead_code_nodes` /
+`ControlDependenceGraph.compute`: self loops, irreducible loops, try-like unlabelled forks, yield blocks),
+`src` (corpus).
 """
 from __future__ import annotations
 
@@ -19,15 +27,60 @@ from vcommon import Failure, PropertyCheck, run_main
 ENTRY, EXIT, ROOT = 0, 1, 2
 
 
-def export_graph(code):
-    """Run the real CFG/CDG construction on a code object and export everything as plain data."""
-    import networkx as nx
+def cfg_of_code(code):
+    """The real CFG construction for a code object."""
     from bytecode import Bytecode
 
     from pynguin.instrumentation import controlflow as cf
     from pynguin.instrumentation import version
 
-    cfg = cf.CFG.from_bytecode(version.add_for_loop_no_yield_nodes(Bytecode.from_code(code)))
+    return cf.CFG.from_bytecode(version.add_for_loop_no_yield_nodes(Bytecode.from_code(code)))
+
+
+def cfg_of_blocks(blocks):
+    """A real `CFG` over a synthetic block graph: `blocks[i] = {"succ": [[target, label], ...], "y": bool}`.
+
+    Only the part of `CFG.from_bytecode` that depends on the `bytecode` library (block splitting, edge
+    creation) is replaced; ENTRY/EXIT insertion (exit, yield and infinite-loop nodes) and dead-node
+    filtering are the real `_insert_dummy_nodes` / `filter_dead_code_nodes`."""
+    import networkx as nx
+    from bytecode import BasicBlock, Instr
+
+    from pynguin.instrumentation import controlflow as cf
+
+    cfg = cf.CFG.__new__(cf.CFG)
+    cfg._graph = nx.DiGraph()
+    cfg._bytecode_cfg = None
+    nodes = []
+    for i, b in enumerate(blocks):
+        instrs = [Instr("NOP")] + ([Instr("YIELD_VALUE", 1)] if b.get("y") else [])
+        nodes.append(cf.BasicBlockNode(index=i, basic_block=BasicBlock(instrs)))
+    edges = {i: [(t, ({} if l is None else {cf.EDGE_DATA_BRANCH_VALUE: l, "label": l})) for t, l in b["succ"]]
+             for i, b in enumerate(blocks) if b["succ"]}
+    cf.CFG._create_graph(cfg, edges, dict(enumerate(nodes)))
+    cf.CFG._insert_dummy_nodes(cfg)
+    return cf.filter_dead_code_nodes(cfg, cf.ArtificialNode.ENTRY)
+
+
+def unreachable_cycle_in_block_graph(code):
+    """Does the raw block graph (before ENTRY/EXIT insertion) contain a cycle that is not reachable from
+    the first block?  (Independent re-implementation over the edges `_create_nodes_and_edges` reports.)"""
+    from bytecode import Bytecode, ControlFlowGraph
+
+    from pynguin.instrumentation import controlflow as cf
+
+    blocks = ControlFlowGraph.from_bytecode(Bytecode.from_code(code))
+    cf.CFG._split_try_begin_blocks(blocks)
+    edges, nodes = cf.CFG._create_nodes_and_edges(blocks)
+    adj = {i: [t for t, _ in edges.get(i, [])] for i in nodes}
+    live = reach(adj, cf.FIRST_BASIC_BLOCK_NODE_INDEX)
+    return any(n in reach(adj, t) for n in nodes if n not in live for t in adj[n])
+
+
+def export_graph(cfg):
+    """Run the real CDG construction on a CFG and export everything as plain data."""
+    from pynguin.instrumentation import controlflow as cf
+
     aug = cf.ControlDependenceGraph._create_augmented_graph(cfg)
     tree = cf.ControlDependenceGraph._compute_post_dominator_tree(aug)
     cdg = cf.ControlDependenceGraph.compute(cfg)
@@ -73,19 +126,203 @@ def reach(adj, src, avoid=None):
     return seen
 
 
+class Skel:
+    """Control-flow skeleton generator: every compound statement of Python around opaque one-line
+    statements, so that blocks are small and the CFG shape (not the data flow) is what varies.
+    Programs are only compiled, never run, so loops may be infinite (`while True:` with a one-statement
+    body is a basic block jumping to itself).  No statement is generated after one that cannot fall
+    through, so there is no dead code.  `block` returns (lines, may_fall_through, breaks_enclosing_loop)."""
+
+    MAX_DEPTH = 3
+
+    def __init__(self, rng, generator, is_async):
+        self.r = rng
+        self.generator = generator
+        self.is_async = is_async
+
+    def cond(self):
+        r = self.r
+        return r.choice(["x", "o.p()", "not x", "x is None", "x is not None", "x < 3", "x in it",
+                         "x and o.p()", "x or o.p()", "o.p(x) and not o.q()", "(y := o.p())", "x < y < 9"])
+
+    def simple(self):
+        r = self.r
+        ks = ["o.m()", "x = o.g(x)", "y = x", "o.m()"]
+        if self.generator:
+            ks += ["yield x", "x = yield x", "yield", "yield from it", "x = yield x"]
+        if self.is_async:
+            ks += ["await o.m()", "x = await o.g(x)"]
+        if r.random() < 0.12:
+            ks = ["x = o.a() if x else o.b()", "x = [k for k in it if k]", "assert x", "x = x and o.p()",
+                  "x = {k: 1 for k in it}", "o.m(k for k in it if k)"]
+        return r.choice(ks)
+
+    @staticmethod
+    def ind(ls):
+        return ["    " + l for l in ls]
+
+    def block(self, depth, in_loop, n=None):
+        r = self.r
+        out, brk = [], False
+        for _ in range(n if n is not None else r.choice([1, 1, 1, 2, 2, 3])):
+            ls, ft, b = self.stmt(depth, in_loop)
+            out += ls
+            brk = brk or b
+            if not ft:
+                return out, False, brk
+        return out, True, brk
+
+    def stmt(self, depth, in_loop):
+        r, ind = self.r, self.ind
+        kinds = ["simple"] * 3
+        if depth < self.MAX_DEPTH:
+            kinds += ["if", "ifelse", "elif", "while", "whiletrue", "whiletrue", "for", "try", "try", "tryfinally",
+                      "with", "match"]
+            if self.is_async:
+                kinds += ["asyncfor", "asyncwith"]
+        if in_loop:
+            kinds += ["break", "continue", "cbreak", "ccontinue"]
+        if depth > 0:
+            kinds += ["return", "raise", "creturn"]
+        k = r.choice(kinds)
+        if k == "simple":
+            return [self.simple()], True, False
+        if k == "break":
+            return ["break"], False, True
+        if k == "continue":
+            return ["continue"], False, False
+        if k == "cbreak":
+            return [f"if {self.cond()}:", "    break"], True, True
+        if k == "ccontinue":
+            return [f"if {self.cond()}:", "    continue"], True, False
+        if k == "return":
+            return [r.choice(["return x", "return", "return o.g(x)"])], False, False
+        if k == "creturn":
+            return [f"if {self.cond()}:", "    return x"], True, False
+        if k == "raise":
+            return [r.choice(["raise ValueError(x)", "raise"])], False, False
+        if k == "if":
+            b, _, brk = self.block(depth + 1, in_loop)
+            return [f"if {self.cond()}:"] + ind(b), True, brk
+        if k == "ifelse":
+            b1, f1, k1 = self.block(depth + 1, in_loop)
+            b2, f2, k2 = self.block(depth + 1, in_loop)
+            return [f"if {self.cond()}:"] + ind(b1) + ["else:"] + ind(b2), f1 or f2, k1 or k2
+        if k == "elif":
+            b1, f1, k1 = self.block(depth + 1, in_loop)
+            b2, f2, k2 = self.block(depth + 1, in_loop)
+            b3, f3, k3 = self.block(depth + 1, in_loop)
+            return ([f"if {self.cond()}:"] + ind(b1) + [f"elif {self.cond()}:"] + ind(b2) + ["else:"] + ind(b3),
+                    f1 or f2 or f3, k1 or k2 or k3)
+        if k in ("while", "whiletrue", "for", "asyncfor"):
+            # a one-statement body makes head and body one basic block (`while True`) or a two-block loop
+            b, _, brk = self.block(depth + 1, True, n=1 if r.random() < 0.45 else None)
+            head = {"while": f"while {self.cond()}:", "whiletrue": r.choice(["while True:", "while 1:"]),
+                    "for": r.choice(["for k in it:", "for k in o.items():", "for k, v in it:"]),
+                    "asyncfor": "async for k in it:"}[k]
+            out, ft = [head] + ind(b), (brk or k != "whiletrue")
+            if k != "whiletrue" and r.random() < 0.25:
+                e, fe, ke = self.block(depth + 1, in_loop, n=1)
+                return out + ["else:"] + ind(e), fe or brk, ke
+            return out, ft, False
+        if k == "try":
+            b, fb, kb = self.block(depth + 1, in_loop)
+            out, fh_any, brk = ["try:"] + ind(b), False, kb
+            for _ in range(r.choice([1, 1, 2])):
+                h, fh, kh = self.block(depth + 1, in_loop, n=r.choice([1, 1, 2]))
+                if r.random() < 0.3:
+                    h, fh, kh = ["pass"], True, False
+                head = r.choice(["except:", "except KeyError:", "except (KeyError, ValueError) as e:",
+                                 "except Exception as e:"])
+                out += [head] + ind(h)
+                fh_any, brk = fh_any or fh, brk or kh
+                if head == "except:":
+                    break
+            if fb and r.random() < 0.3:
+                e, fb, ke = self.block(depth + 1, in_loop, n=1)
+                out += ["else:"] + ind(e)
+                brk = brk or ke
+            if r.random() < 0.25:
+                out += ["finally:"] + ind([r.choice(["o.close()", "x = o.g(x)"])])
+            return out, fb or fh_any, brk
+        if k == "tryfinally":
+            b, fb, kb = self.block(depth + 1, in_loop)
+            return ["try:"] + ind(b) + ["finally:"] + ind(["o.close()"]), fb, kb
+        if k in ("with", "asyncwith"):
+            b, fb, kb = self.block(depth + 1, in_loop)
+            head = r.choice(["with o:", "with o as y:", "with o, it as y:"])
+            return [("async " if k == "asyncwith" else "") + head] + ind(b), fb, kb
+        if k == "match":
+            out, ft, brk = ["match x:"], False, False
+            pats = r.sample(["case 1:", "case 2 | 3:", "case [a, b]:", "case {'k': v}:", "case str():",
+                             "case z if z > 2:"], r.choice([1, 2]))
+            wild = r.random() < 0.5
+            for p in pats + (["case _:"] if wild else []):
+                b, fb, kb = self.block(depth + 2, in_loop, n=1)
+                out += ind([p] + ind(b))
+                ft, brk = ft or fb, brk or kb
+            return out, ft or not wild, brk
+        raise AssertionError(k)
+
+
+def skel_source(seed):
+    rng = random.Random(seed)
+    is_async = rng.random() < 0.12
+    generator = not is_async and rng.random() < 0.4  # (`yield from` / `return x` are errors in async generators)
+    s = Skel(rng, generator, is_async)
+    body, _, _ = s.block(0, False, n=rng.choice([1, 1, 2, 3]))
+    return "\n".join([("async def" if is_async else "def") + " f(o, it, x, y=None):"] + Skel.ind(body)) + "\n"
+
+
+def synth_blocks(rng):
+    """A random block graph in the shapes `_create_nodes_and_edges` produces: a block has no successor
+    (return), one (fall through / jump), two labelled True/False (conditional jump) or two unlabelled
+    (try-begin block: next block + handler); any block may contain a yield.  Successors are arbitrary
+    (self loops, irreducible loops, infinite loops), every block is reachable from block 0."""
+    n = rng.choice([1, 2, 3, 3, 4, 4, 5, 5, 6, 7, 8, 10, 12])
+    raw = []
+    for i in range(n):
+        k = rng.choice(["ret", "jmp", "jmp", "br", "br", "br", "try"] if n > 1 else ["ret", "jmp"])
+        pick = lambda: i if rng.random() < 0.15 else rng.randrange(n)  # noqa: E731
+        if k == "ret":
+            succ = []
+        elif k == "jmp":
+            succ = [[pick(), None]]
+        else:
+            a, b = pick(), pick()
+            if a == b:  # a DiGraph holds one edge per pair (conditional jump to the next block)
+                b = (a + 1) % n
+            succ = [[a, True], [b, False]] if k == "br" else [[a, None], [b, None]]
+        raw.append({"succ": succ, "y": rng.random() < 0.15})
+    seen, todo = {0}, [0]
+    while todo:
+        for t, _ in raw[todo.pop()]["succ"]:
+            if t not in seen:
+                seen.add(t)
+                todo.append(t)
+    ren = {old: new for new, old in enumerate(sorted(seen))}
+    return [{"succ": [[ren[t], l] for t, l in raw[old]["succ"]], "y": raw[old]["y"]} for old in sorted(seen)]
+
+
 class C06(PropertyCheck):
     prop_id = "C06"
     prop_modules = ["PynguinModel.Props.C06"]
-    extra_modules = ["PynguinModel.Model.Cdg"]
+    extra_modules = ["PynguinModel.Model.Cdg", "PynguinModel.Model.CdgQueries"]
     driver = "Driver/C06.lean"
     n_quick = 700
     n_thorough = 9000
     n_search = 3000
-    rule = ("code objects of random generated programs (progen) and of pure-Python stdlib modules; "
+    rule = ("code objects of random generated programs (progen), of control-flow skeletons (one-block loops, generators, "
+            "try/with/match in branches and loops) and of pure-Python stdlib modules, plus synthetic block graphs handed to "
+            "the real _insert_dummy_nodes / filter_dead_code_nodes / compute; "
             "non-trivial = distinct CFG with at least one labelled (branch) edge")
     assumptions = ["networkx immediate_dominators / lowest_common_ancestor are parameters: validated per graph "
                    "(tree = strict post-dominance, by checked certificates, for graphs up to CERT_MAX nodes), not proved",
-                   "bytecode's block splitting and CFG edge creation are not modelled (C03)"]
+                   "bytecode's block splitting and CFG edge creation are not modelled (C03)",
+                   "a branch block with an artificial EXIT edge can depend on itself under both outcomes; the DiGraph "
+                   "stores one edge per pair, either wanted label is accepted there (guard:double-label)",
+                   "code objects for which the unchanged CFG construction raises KeyError (loop in an except handler that "
+                   "the block graph does not connect to the first block) are skipped after an independent check"]
     CERT_MAX = 45
 
     def __init__(self, tier, seed):
@@ -94,15 +331,19 @@ class C06(PropertyCheck):
         self._codes = {}
         self._graphs = {}
 
-    # cases are descriptors; the code object is rebuilt deterministically from them
+    # cases are descriptors; the code object / block graph is rebuilt deterministically from them
     def gen_case(self, rng):
-        if rng.random() < (0.35 if self.tier == "quick" else 0.5):
+        k = rng.random()
+        if k < (0.25 if self.tier == "quick" else 0.3):
             if self._std is None:
                 self._std = progen.stdlib_code_objects()
             i = rng.randrange(len(self._std))
             return {"kind": "stdlib", "module": self._std[i][0], "index": i}
-        s = rng.randrange(1 << 30)
-        return {"kind": "gen", "seed": s, "pick": rng.randrange(1 << 16)}
+        if k < 0.55:
+            return {"kind": "gen", "seed": rng.randrange(1 << 30), "pick": rng.randrange(1 << 16)}
+        if k < 0.8:
+            return {"kind": "skel", "seed": rng.randrange(1 << 30), "pick": rng.randrange(1 << 16)}
+        return {"kind": "synth", "blocks": synth_blocks(rng)}
 
     def _code(self, case):
         key = vcommon.jdump(case)
@@ -112,8 +353,11 @@ class C06(PropertyCheck):
             if self._std is None:
                 self._std = progen.stdlib_code_objects()
             code = self._std[case["index"]][1]
-        elif case["kind"] == "src":
-            cos = progen.all_code_objects(compile(case["src"], "<c06>", "exec"))
+        elif case["kind"] in ("src", "skel"):
+            src = case["src"] if case["kind"] == "src" else skel_source(case["seed"])
+            cos = progen.all_code_objects(compile(src, "<c06>", "exec"))
+            # the module's own code object is straight-line: pick among the functions (and what they nest)
+            cos = cos[1:] or cos
             code = cos[case.get("pick", 0) % len(cos)]
         else:
             src = progen.gen_module(random.Random(case["seed"]), n_funcs=2)
@@ -126,14 +370,38 @@ class C06(PropertyCheck):
         key = vcommon.jdump(case)
         if key in self._graphs:
             return self._graphs[key]
-        g = export_graph(self._code(case))
-        self._graphs[key] = g
         self.count("kind:" + case["kind"])
+        try:
+            cfg = cfg_of_blocks(case["blocks"]) if case["kind"] == "synth" else cfg_of_code(self._code(case))
+        except Exception as e:  # noqa: BLE001
+            # Known crash of the unchanged tree (observation, see design note): `_insert_dummy_nodes` looks up the
+            # entry distance of a loop that the block graph does not connect to the first block (a loop inside
+            # an `except` handler of `try: return`).  Only that situation, established independently, is skipped.
+            known = (isinstance(e, KeyError) and case["kind"] != "synth"
+                     and unreachable_cycle_in_block_graph(self._code(case)))
+            self.count("skipped:unreachable-loop-keyerror" if known else "cfg-construction-raised")
+            g = {"skip": True} if known else {"err": type(e).__name__, "msg": str(e)[:200]}
+            self._graphs[key] = g
+            return g
+        try:
+            g = export_graph(cfg)
+        except Exception as e:  # noqa: BLE001
+            self.count("cdg-construction-raised")
+            g = {"err": type(e).__name__, "msg": "CDG: " + str(e)[:200]}
+            self._graphs[key] = g
+            return g
+        self._graphs[key] = g
         self.count(f"nodes:{min(len(g['nodes']) // 10 * 10, 60)}+")
+        if any(s == t for s, t, _ in g["cfg_edges"]):
+            self.count("shape:cfg-self-loop")
+        if any(len({d[0] for d in ds}) < len(ds) for _, ds in g["deps"]):
+            self.count("shape:depends-on-both-outcomes")
         return g
 
     def model_line(self, case):
         g = self.impl(case)
+        if "skip" in g or "err" in g:
+            return None
         certs = len(g["nodes"]) <= self.CERT_MAX
         self.count("certs:" + ("yes" if certs else "skipped-large"))
         return vcommon.jdump({k: g[k] for k in ("nodes", "blocks", "edges", "parent", "entry", "exit", "root")}
@@ -149,12 +417,19 @@ class C06(PropertyCheck):
         self.extra_coverage["pdom_pairs_certified"] = self.extra_coverage.get("pdom_pairs_certified", 0) + mo.get("pdomPairs", 0)
         if not mo.get("labelConsistent", True):
             self.count("guard:label-inconsistent")
+        if not mo.get("uniform", True):  # hypothesis of root_dependence_exact / root_dependence_of_no_branch
+            self.count("guard:non-uniform-out-edges")
         return ok
 
     # ---- the property itself, evaluated on the implementation's graphs ----
     def oracle(self, case, g):
         fs = []
         sig = lambda c: {"class": c}  # noqa: E731
+        if "skip" in g:
+            return fs
+        if "err" in g:
+            return [Failure(sig("cfg-construction-raises"),
+                            f"no CFG/CDG for this code object: {g['err']}: {g['msg']}")]
         adj = {}
         for s, t, _ in g["cfg_edges"]:
             adj.setdefault(s, []).append(t)
@@ -175,50 +450,92 @@ class C06(PropertyCheck):
             aadj.setdefault(e["s"], []).append(e["t"])
         nodes = g["nodes"]
 
-        def pdom(b, v):  # every path v -> EXIT passes through b
-            return b == v or EXIT not in reach(aadj, v, avoid=b)
+        memo = {}
 
-        want = set()
-        double = set()
+        def pdom(b, v):  # every path v -> EXIT passes through b
+            if (b, v) not in memo:
+                memo[(b, v)] = b == v or EXIT not in reach(aadj, v, avoid=b)
+            return memo[(b, v)]
+
+        want = {}  # (A, B) -> outcomes v with: B post-dominates succ_v(A), B does not strictly post-dominate A
         for e in g["edges"]:
             a, t, l = e["s"], e["t"], e["l"]
             for b in nodes:
-                if pdom(b, t) and not (b != a and pdom(b, a)):
-                    if b in (ENTRY, EXIT) or a in (ENTRY, EXIT):
-                        continue
-                    for (a2, b2, l2) in list(want):
-                        if (a2, b2) == (a, b) and l2 != l:
-                            double.add((a, b))
-                    want.add((a, b, l))
-        have = {(a, b, l) for a, b, l in g["cdg"]}
+                if a not in (ENTRY, EXIT) and b not in (ENTRY, EXIT) and pdom(b, t) and not (b != a and pdom(b, a)):
+                    want.setdefault((a, b), set()).add(l)
+        have = {}
+        for a, b, l in g["cdg"]:
+            have.setdefault((a, b), set()).add(l)
+        # A branch block that also got an artificial EXIT edge (entry of an infinite loop, yield block) can
+        # depend on itself under BOTH outcomes (`while True: if x: f()`): the DiGraph holds one edge per
+        # pair, so exactly one of the wanted labels must be stored (guard, counted).
+        double = {p for p, ls in want.items() if len(ls) > 1}
         if double:
             self.count("guard:double-label")
-            want = {(a, b, l) for (a, b, l) in want if (a, b) not in double}
-            have = {(a, b, l) for (a, b, l) in have if (a, b) not in double}
-        if want != have:
+        missing = sorted(([a, b, l] for (a, b), ls in want.items() for l in ls
+                          if (a, b) not in double and l not in have.get((a, b), ())), key=str)
+        missing += sorted(([a, b, sorted(want[(a, b)], key=str)] for (a, b) in double
+                           if len(have.get((a, b), ())) != 1 or not have[(a, b)] <= want[(a, b)]), key=str)
+        extra = sorted(([a, b, l] for (a, b), ls in have.items() for l in ls if l not in want.get((a, b), ())), key=str)
+        if missing or extra:
             fs.append(Failure(sig("cdg-differs-from-ferrante"),
                               "CDG edges differ from the post-dominance definition",
-                              detail={"missing": sorted(want - have, key=str), "extra": sorted(have - want, key=str)}))
-        # root dependence: nodes not dependent on any branch hang off the root
-        labelled_targets = {b for a, b, l in g["cdg"] if l is not None}
-        for n, rd in g["rootDep"]:
-            if n != ROOT and not rd and not g_deps(g, n):
+                              detail={"missing": missing, "extra": extra}))
+        # the expected graph, a doubly labelled pair taken the way the implementation stores it
+        want = {(a, b, l) for (a, b), ls in want.items()
+                for l in (ls if (a, b) not in double else ls & have.get((a, b), set()))}
+        # get_control_dependencies / is_control_dependent_on_root against the EXPECTED graph: the branch
+        # dependencies of n are the labelled edges out of basic blocks met when walking CDG edges backwards
+        # from n through every other edge (root, try-begin and yield blocks have unlabelled out-edges);
+        # n is root dependent when that walk meets an edge out of the augmented entry.
+        blocks = set(g["blocks"])
+        incoming, kinds = {}, {}
+        for a, b, l in sorted(want, key=str):
+            is_dep = a in blocks and l is not None
+            incoming.setdefault(b, []).append((a, l, is_dep))
+            kinds.setdefault(a, set()).add(is_dep)
+        mixed = any(len(k) > 1 for k in kinds.values())
+        if mixed:
+            self.count("guard:mixed-out-edges")
+        have_deps = {n: {(d[0], d[1]) for d in ds} for n, ds in g["deps"]}
+        have_root = dict(map(tuple, g["rootDep"]))
+        for n in g["cdg_nodes"]:
+            exp, on_root, seen, todo = set(), False, {n}, [n]
+            while todo:
+                for a, l, is_dep in incoming.get(todo.pop(), ()):
+                    if is_dep:
+                        exp.add((a, l))
+                    elif a == ROOT:
+                        on_root = True
+                    elif a not in seen:
+                        seen.add(a)
+                        todo.append(a)
+            got, rd = have_deps.get(n, set()), have_root.get(n)
+            if exp - got:
+                fs.append(Failure(sig("control-dependency-missing"),
+                                  f"get_control_dependencies({n}) misses {sorted(exp - got)}",
+                                  detail={"node": n, "expected": sorted(exp), "got": sorted(got)}))
+            if got - exp:
+                fs.append(Failure(sig("control-dependency-spurious"),
+                                  f"get_control_dependencies({n}) reports {sorted(got - exp)} which the definition does not give",
+                                  detail={"node": n, "expected": sorted(exp), "got": sorted(got)}))
+            if n != ROOT and not exp and not rd:
                 fs.append(Failure(sig("no-dependence-at-all"),
-                                  f"node {n} is neither root-dependent nor dependent on a branch"))
+                                  f"node {n} depends on no branch but is not root-dependent"))
+            if rd and not on_root:
+                fs.append(Failure(sig("root-dependence-without-root-path"),
+                                  f"node {n} reported root-dependent, but every CDG path from the root passes a branch"))
+            if on_root and not rd and not mixed:
+                fs.append(Failure(sig("root-dependence-missed"),
+                                  f"node {n} hangs off the root over non-branch CDG edges but is reported not root-dependent"))
+            if len(fs) > 6:
                 break
         return fs
 
     def classify(self, case, g):
-        if any(e["l"] is not None for e in g["edges"]):
+        if "edges" in g and any(e["l"] is not None for e in g["edges"]):
             return vcommon.jdump(sorted((e["s"], e["t"], str(e["l"])) for e in g["edges"]))
         return None
-
-
-def g_deps(g, n):
-    for m, ds in g["deps"]:
-        if m == n:
-            return ds
-    return []
 
 
 if __name__ == "__main__":
